@@ -438,7 +438,9 @@ def run_property(prop, tier, mutations=None, jobs=None, only=None, float_mode="f
         print(f"ERROR no contract module for {prop}")
         return 3, None
     findings_all = load_known_findings()
-    findings = [f for f in findings_all.get("open", []) if f["property"] == prop]
+    # a lemma relied on from another property (api.rely_on) brings that property's known findings with it
+    relied = {(getattr(l, "origin", l.prop), l.name) for l in api.LEMMAS if l.prop == prop and getattr(l, "origin", l.prop) != prop}
+    findings = [f for f in findings_all.get("open", []) if f["property"] == prop or (f["property"], f.get("lemma")) in relied]
     work = []
     for lem in api.LEMMAS:
         if lem.prop != prop:
@@ -641,7 +643,7 @@ def summarize(prop, tier, results, wall, findings, mutations, quiet=False):
         lines.append(f"UNDECIDED property={prop} obligation={r['lemma']}[{r['instance']}] {v['site']} ({v['detail']})")
     if code in (0,):
         for f in findings:
-            lines.append(f"KNOWN-FINDING: property={prop} {f['what']}")
+            lines.append(f"KNOWN-FINDING: property={f['property']} {f['what']}")
     functions = {}
     for r in results:
         for f in r["functions"]:
